@@ -135,8 +135,10 @@ func VerifC14Reject() {
 	padLen := verifrt.Uint32("padlen")
 	verifrt.Assume(magic != magicValue || padLen > maxPadding)
 	hello := refHello(peerPad, peerSeed, nil, magic, padLen)
-	conn := verifrt.NewConn("c", hello)
-	conn.MaxChunks = 1
+	// the peer keeps sending: enough bytes follow that a slightly oversized padding length
+	// (8193 ...) could be satisfied if it were accepted
+	conn := verifrt.NewConn("c", append(append([]byte{}, hello...), make([]byte, maxPadding+64)...))
+	conn.Cuts = []int{len(hello)}
 	conn.EOFAtEnd = true
 	var err error
 	if initiator {
@@ -145,5 +147,6 @@ func VerifC14Reject() {
 		_, err = newObfs2ServerConn(conn)
 	}
 	verifrt.Assert(err != nil, "wrong magic / padlen > 8192 is rejected")
+	verifrt.Assert(conn.Rpos <= len(hello), "rejected on the header alone: none of the announced padding is consumed")
 	verifrt.Reach("end")
 }
